@@ -93,6 +93,40 @@ func writeDocFiles() {
 	put("pdfKidsMissing", ".pdf", b, err)
 	b, err = tree(pdfw.Arr{pdfw.Ref{Num: 3}, pdfw.Ref{Num: 4}}, []byte("this is not a zlib stream at all"))
 	put("pdfBadStream", ".pdf", b, err)
+	// two pages sharing ONE resources object; page 1 also draws a form whose own resources reuse the page's font name
+	// F1 for another font (codes A B C read as X Y Z) and nest a second form under the page's XObject name: what a
+	// reader merges for the form must not change what the pages themselves see afterwards
+	{
+		font := func(diff bool) pdfw.Dict {
+			d := pdfw.Dict{{"Type", pdfw.Name("Font")}, {"Subtype", pdfw.Name("Type1")}, {"BaseFont", pdfw.Name("Helvetica")}}
+			if diff {
+				d = append(d, pdfw.KV{K: "Encoding", V: pdfw.Dict{{"Type", pdfw.Name("Encoding")}, {"BaseEncoding", pdfw.Name("WinAnsiEncoding")},
+					{"Differences", pdfw.Arr{pdfw.Int(65), pdfw.Name("X"), pdfw.Name("Y"), pdfw.Name("Z")}}}})
+			}
+			return d
+		}
+		pg := func(c int) pdfw.Dict {
+			return pdfw.Dict{{"Type", pdfw.Name("Page")}, {"Parent", pdfw.Ref{Num: 2}}, {"MediaBox", pdfw.Arr{pdfw.Int(0), pdfw.Int(0), pdfw.Int(300), pdfw.Int(300)}},
+				{"Resources", pdfw.Ref{Num: 5}}, {"Contents", pdfw.Ref{Num: c}}}
+		}
+		form := func(res pdfw.Dict, body string) *pdfw.Stream {
+			return &pdfw.Stream{Dict: pdfw.Dict{{"Type", pdfw.Name("XObject")}, {"Subtype", pdfw.Name("Form")}, {"BBox", pdfw.Arr{pdfw.Int(0), pdfw.Int(0), pdfw.Int(300), pdfw.Int(300)}},
+				{"Resources", res}}, Data: []byte(body)}
+		}
+		f := &pdfw.File{EOL: "lf"}
+		f.Revs = []pdfw.Revision{{XRef: "table", Root: pdfw.Ref{Num: 1}, Items: []pdfw.Item{
+			{Num: 1, Val: pdfw.Dict{{"Type", pdfw.Name("Catalog")}, {"Pages", pdfw.Ref{Num: 2}}}},
+			{Num: 2, Val: pdfw.Dict{{"Type", pdfw.Name("Pages")}, {"Kids", pdfw.Arr{pdfw.Ref{Num: 3}, pdfw.Ref{Num: 4}}}, {"Count", pdfw.Int(2)}}},
+			{Num: 3, Val: pg(10)}, {Num: 4, Val: pg(11)},
+			{Num: 5, Val: pdfw.Dict{{"Font", pdfw.Dict{{"F1", pdfw.Ref{Num: 6}}}}, {"XObject", pdfw.Dict{{"X1", pdfw.Ref{Num: 8}}}}}},
+			{Num: 6, Val: font(false)}, {Num: 7, Val: font(true)},
+			{Num: 8, Stm: form(pdfw.Dict{{"Font", pdfw.Dict{{"F1", pdfw.Ref{Num: 7}}}}, {"XObject", pdfw.Dict{{"X1", pdfw.Ref{Num: 9}}}}}, "BT /F1 12 Tf 20 150 Td (ABC) Tj ET /X1 Do")},
+			{Num: 9, Stm: form(pdfw.Dict{}, "BT /F1 12 Tf 20 120 Td (CAB) Tj ET")},
+			{Num: 10, Stm: &pdfw.Stream{Data: []byte("BT /F1 12 Tf 20 200 Td (ABC) Tj ET /X1 Do BT /F1 12 Tf 20 90 Td (BCA) Tj ET")}},
+			{Num: 11, Stm: &pdfw.Stream{Data: []byte("BT /F1 12 Tf 20 200 Td (ABC) Tj ET /X1 Do")}}}}}
+		fb, _, ferr := f.Bytes()
+		put("pdfSharedRes", ".pdf", fb, ferr)
+	}
 	var placed [][]pdfdoc.Placed
 	for p := 0; p < 3; p++ {
 		pg := []pdfdoc.Placed{{X: 72, Y: 760, Size: 10, Text: "Running Header"}, {X: 300, Y: 25, Size: 10, Text: fmt.Sprintf("Page %d", p+1)}}
@@ -272,7 +306,35 @@ func handleDoc(name string) *hdoc {
 		}
 		return fmt.Sprint(n)
 	}
+	// text of page i, optionally after the text of page `first` was extracted through the same reader
+	ptext := func(first, i int) func() string {
+		return func() string {
+			rd, err := reader.Open(path)
+			if err != nil {
+				return errStr(err)
+			}
+			defer rd.Close()
+			get := func(k int) string {
+				pg, err := rd.GetPage(k)
+				if err != nil {
+					return errStr(err)
+				}
+				s, err := rd.ExtractText(pg)
+				if err != nil {
+					return errStr(err)
+				}
+				return s
+			}
+			if first >= 0 {
+				get(first)
+			}
+			return get(i)
+		}
+	}
 	return &hdoc{name: "handle-" + name, run: map[string]func() string{
+		// "x@2": x after other work on the same handle
+		"reader-text-p0": ptext(-1, 0), "reader-text-p0@2": ptext(0, 0),
+		"reader-text-p1": ptext(-1, 1), "reader-text-p1@2": ptext(0, 1),
 		"reader-getpage0": nth(1, func(rd *reader.Reader) string { return page(rd, 0) }), "reader-getpage0@2": nth(2, func(rd *reader.Reader) string { return page(rd, 0) }),
 		"reader-getpage1": nth(1, func(rd *reader.Reader) string { return page(rd, 1) }), "reader-getpage1@2": nth(2, func(rd *reader.Reader) string { return page(rd, 1) }),
 		"reader-pagecount": nth(1, count), "reader-pagecount@2": nth(2, count),
@@ -285,7 +347,7 @@ func init() {
 	fileDocGens = append(fileDocGens, func(salt int64) []*hdoc {
 		docFilesOnce.Do(writeDocFiles)
 		var out []*hdoc
-		for _, n := range []string{"pdfA", "pdfKidsLoop", "pdfKidsMissing", "pdfBadStream"} {
+		for _, n := range []string{"pdfA", "pdfSharedRes", "pdfKidsLoop", "pdfKidsMissing", "pdfBadStream"} {
 			if docFilePaths[n] != "" {
 				out = append(out, handleDoc(n))
 			}
@@ -295,7 +357,7 @@ func init() {
 				out = append(out, swapDoc(n))
 			}
 		}
-		for _, n := range []string{"pdfA", "pdfA2", "pdfB", "pdfB2", "pdfTie", "pdfC", "pdfWide", "pdfStd", "docx", "xlsx", "pptx", "odt", "epub", "html", "bad", "trunc"} {
+		for _, n := range []string{"pdfA", "pdfA2", "pdfB", "pdfB2", "pdfTie", "pdfSharedRes", "pdfC", "pdfWide", "pdfStd", "docx", "xlsx", "pptx", "odt", "epub", "html", "bad", "trunc"} {
 			if docFilePaths[n] != "" {
 				out = append(out, fileDoc(n))
 			}
